@@ -8,9 +8,9 @@ cp $WT/_mutation/patch.diff $WT/_mutation/notes.md $OUT/ 2>/dev/null
 cp $WT/_mutation/demo.* $WT/_mutation/build.sh $OUT/ 2>/dev/null
 cd $WT
 ( timeout 300 bash _mutation/build.sh > $OUT/demo_with.log 2>&1 ); RC_WITH=$?
-git stash -q
+git diff > /tmp/.seeded_eval_$$.diff; git apply -R /tmp/.seeded_eval_$$.diff   # (git stash is shared between worktrees: never use it here)
 ( timeout 300 bash _mutation/build.sh > $OUT/demo_without.log 2>&1 ); RC_WITHOUT=$?
-git stash pop -q
+git apply /tmp/.seeded_eval_$$.diff; rm -f /tmp/.seeded_eval_$$.diff
 echo "demo: with change rc=$RC_WITH, without rc=$RC_WITHOUT"
 RES="{}"
 for id in "$@"; do
@@ -19,4 +19,4 @@ for id in "$@"; do
   dr=$(grep -c "^DRIFT" $OUT/check_$id.log)
   echo "check $id: exit=$rc violations=$nv drift=$dr  $sigs"
 done
-rm -rf /var/tmp/vp-build
+rm -rf "/var/tmp/vp-build/$(echo "$WT" | tr -c 'A-Za-z0-9' '_')"
